@@ -696,12 +696,27 @@ class Runner:
         key = G.canon_rec(rec)
         if key[0] == "L":
             key = (key[0], G.link_key(key), key[2])
+
+        def k_of(r_):
+            k_ = G.canon_rec(r_)
+            return (k_[0], G.link_key(k_), k_[2]) if k_[0] == "L" else k_
+        # records without identifier may occur several times with the same text: the n-th of them in the
+        # model stands for the n-th such line of the Gfa (so that not always the first twin is picked)
+        rank = 0
+        for r_ in self.model.recs:
+            if r_ is rec:
+                break
+            if r_.rt == rec.rt and k_of(r_) == key:
+                rank += 1
+        cands = []
         for l in self.gfa.lines:
-            if l.virtual or l.record_type == "H":
+            if l.virtual or l.record_type == "H" or l.record_type != rec.rt:
                 continue
             if O.line_key(l, self.version) == key:
-                return l
-        return None
+                cands.append(l)
+        if not cands:
+            return None
+        return cands[min(rank, len(cands) - 1)]
 
     def apply(self, op):
         """Apply one operation to gfapy and then to the model. Exceptions propagate."""
